@@ -9,6 +9,7 @@ package main
 import (
 	"bufio"
 	"bytes"
+	"crypto/sha256"
 	"encoding/json"
 	"fmt"
 	"os"
@@ -46,9 +47,9 @@ func (c tierCfg) alphabet() []op {
 }
 
 func cfgFor(run *fw.Run) tierCfg {
-	c := tierCfg{Depth: 5, MaxNonNull: 1, Inits: []string{"A", "AB", "AC", "ABC"}, NoCache: []bool{false}}
+	c := tierCfg{Depth: 5, MaxNonNull: 1, Inits: []string{"A", "AB", "AC", "ABC", "MN"}, NoCache: []bool{false}}
 	if run.Thorough() {
-		c = tierCfg{Depth: 6, MaxNonNull: 2, Inits: []string{"", "A", "C", "AB", "AC", "ABC"}, NoCache: []bool{false, true}, Full: true}
+		c = tierCfg{Depth: 6, MaxNonNull: 2, Inits: []string{"", "A", "C", "AB", "AC", "ABC", "MN"}, NoCache: []bool{false, true}, Full: true}
 	}
 	if os.Getenv("C09_FULL") == "1" {
 		c.Full = true
@@ -84,7 +85,7 @@ func encodeHistory(h history) []byte {
 	b := make([]byte, recSize)
 	b[0] = byte(len(h.Init.Mods))
 	for i := 0; i < len(h.Init.Mods); i++ {
-		b[0] |= 1 << (2 + (h.Init.Mods[i] - 'A'))
+		b[0] |= 1 << (2 + modIndex(h.Init.Mods[i]))
 	}
 	b[0] &^= 3
 	if h.Init.NoCache {
@@ -99,7 +100,7 @@ func encodeHistory(h history) []byte {
 
 func decodeHistory(b []byte) history {
 	var h history
-	for x := 0; x < 3; x++ {
+	for x := 0; x < nMods; x++ {
 		if b[0]&(1<<(2+x)) != 0 {
 			h.Init.Mods += modNames[x]
 		}
@@ -395,7 +396,7 @@ func (e *explorer) report(h history, eng int, r *caseResult) {
 func hasLifetimeOp(h history) bool {
 	for _, o := range h.Ops {
 		switch o.K {
-		case kCloseInst, kCloseComp, kCloseCache, kCloseRt, kDrop, kGC, kReenter, kFailInst, kCloseFiller:
+		case kCloseInst, kCloseComp, kCloseCache, kCloseRt, kDrop, kGC, kReenter, kFailInst, kCloseFiller, kGrowGuest, kGrowHost:
 			return true
 		}
 	}
@@ -509,6 +510,18 @@ func (e *explorer) explore() {
 				if !n.s.enabled(o) {
 					continue
 				}
+				if !e.cfg.Full && n.s.Inst[mM] != instNone {
+					// quick, shared-memory graph MN: only close/drop of the owner, runtime close, one growth (guest or host) and
+					// writes; every history still ends with probe, forced collection, probe
+					switch {
+					case o.K == kFresh, o.K == kCloseFiller, o.K == kCloseCache, o.K == kGC, o.K == kCloseComp:
+						continue
+					case (o.K == kCloseInst || o.K == kDrop) && o.X == mN:
+						continue
+					case (o.K == kGrowGuest || o.K == kGrowHost) && n.s.MemGrown >= 1:
+						continue
+					}
+				}
 				if n.s.apply(o).nonNull() > e.cfg.MaxNonNull {
 					continue
 				}
@@ -525,7 +538,7 @@ func (e *explorer) explore() {
 // name the content of A.tab[0]; verdicts always come from the comparison with the twin.
 func calibrate() {
 	for k := 0; k < nFailKinds; k++ {
-		w := newWorld(false, 1, false, [3]bool{true, false, false}, 0)
+		w := newWorld(false, 1, false, [nMods]bool{true}, 0)
 		if r := w.do(op{K: kInst, X: mA}); r != "ok" {
 			fw.Fatalf("calibration: instantiate A: %s", r)
 		}
@@ -601,6 +614,22 @@ func main() {
 		sigs = append(sigs, fmt.Sprintf("%s x%d", s, n))
 	}
 	sort.Strings(sigs)
+	// digest of every measured count (no wall times): lets consecutive runs be compared even when the evidence file goes
+	// to a private directory (VERIF_PATCHES runs)
+	{
+		var pd []map[string]any
+		for _, d := range e.perDepth {
+			c := map[string]any{}
+			for k, v := range d {
+				if k != "wall_s" {
+					c[k] = v
+				}
+			}
+			pd = append(pd, c)
+		}
+		b, _ := json.Marshal([]any{pd, e.outcomes.Map(), e.probes, sigs, len(e.seen), e.cases, e.danglingSt, e.errorSt})
+		fmt.Printf("c09: coverage-digest=%x\n", sha256.Sum256(b))
+	}
 	extra := map[string]any{
 		"per_depth": e.perDepth, "probe_calls_compared_with_twin": e.probes, "states_not_expanded_dangling_reference": e.danglingSt,
 		"states_not_expanded_error": e.errorSt, "fresh_process_reruns": e.reruns, "failure_signatures": sigs,
